@@ -270,6 +270,11 @@ V2_CONTEXTS = ("top", "while", "while_if_break", "when_body", "when_else", "subf
                "while_when_continue")
 
 
+def _else_text(lines):
+    # (see _else_kw)
+    return "else:" if lines[0].startswith("if ") else "else"
+
+
 def in_context_v2(ctx, lines):
     if ctx == "top":
         body = _ind(lines, 1) + ["  match Z()"]
@@ -280,9 +285,9 @@ def in_context_v2(ctx, lines):
     elif ctx == "when_body":
         body = ["  when E9()"] + _ind(lines, 2) + ["  else", "    match Z()"]
     elif ctx == "when_else":
-        body = ["  when g", "    match Z()", "  else"] + _ind(lines, 2)
+        body = ["  when g", "    match Z()", "  " + _else_text(lines)] + _ind(lines, 2)
     elif ctx == "while_when_continue":
-        body = ["  while $c", "    when g", "      continue", "    else"] + _ind(lines, 3) + ["    match Z()"]
+        body = ["  while $c", "    when g", "      continue", "    " + _else_text(lines)] + _ind(lines, 3) + ["    match Z()"]
     elif ctx == "subflow_if_return":
         sub = ["flow q", "  if $c"] + _ind(lines, 2) + ["    return", "  else", "    abort", ""]
         return RICH_HELPERS + "\n".join(sub) + "\nflow main\n  await q\n  match Z()\n"
@@ -524,3 +529,50 @@ def when_or_family(max_body):
                                 text = ["  while $c"] + _ind(lines, 2) + ["    match Z()"]
                             yield ((ctx, n, bi, si, int(two), int(els), where),
                                    V2_HELPERS + "flow main\n" + "\n".join(text) + "\n")
+
+
+# ---------------------------------------------------------------- Colang 2.x: the edge of the accepted language
+# "Every flow the loader accepts ... is closed": the statements above are (almost) all accepted.  This family is the
+# full product  operator x kind of operand x group shape x statement form,  whether or not an expansion rule supports
+# the combination (`stop` on anything, `activate` / `deactivate` on an or-group, `match` on a flow, `send` on an
+# action, `await` on an event, a variable reference as operand, ...), plus the bare loop exits, each in every nesting
+# context.  The oracle is "rejected by the loader, or compiled into a closed flow": a rule that refuses a statement
+# must make the loader refuse the flow - it must not leave the statement in the compiled flow.
+EDGE_OPS = ("match", "await", "start", "stop", "activate", "deactivate", "send")
+EDGE_KINDS = ("ev", "fl", "ac", "var", "fev", "vev")
+EDGE_LEAVES = dict(LEAF_KINDS)
+EDGE_LEAVES.update({
+    "var": lambda i: f"$r{i}",
+    "fev": lambda i: FLOWS[i % 4] + ".Finished()",
+    "vev": lambda i: f"$r{i}.Finished()",
+})
+EDGE_FORMS = ("stmt", "assign", "bare", "when", "orwhen")
+EDGE_LOOP_EXITS = (
+    ("break", ["break"]), ("continue", ["continue"]),
+    ("if/break", ["if $c", "  break"]), ("if/continue/else/break", ["if $c", "  continue", "else", "  break"]),
+)
+
+
+def edge_statements(kmax):
+    """list of (id, [lines], meta); meta = dict(op=, kind=, form=, leaves=)"""
+    out = []
+    for k in range(1, kmax + 1):
+        for sh in shapes(k):
+            for kind in EDGE_KINDS:
+                spec = show_shape(sh, EDGE_LEAVES[kind], [0])
+                # the references are bound first (the loader does not need that, the interpreter would)
+                pre = [f"start {FLOWS[i % 4]} as $r{i}" for i in range(k)] if kind in ("var", "vev") else []
+                for op in EDGE_OPS:
+                    out.append((f"{op} {spec}", pre + [f"{op} {spec}"], dict(op=op, kind=kind, form="stmt", leaves=k)))
+                    out.append((f"$v = {op} {spec}", pre + [f"$v = {op} {spec}"],
+                                dict(op=op, kind=kind, form="assign", leaves=k)))
+                if kind not in ("var", "vev"):     # (a statement cannot begin with a variable: that is an assignment)
+                    out.append((f"(bare) {spec}", pre + [spec], dict(op="(none)", kind=kind, form="bare", leaves=k)))
+                out.append((f"when {spec}", pre + [f"when {spec}", "  match W0()"],
+                            dict(op="when", kind=kind, form="when", leaves=k)))
+                out.append((f"when W8() or when {spec}",
+                            pre + ["when W8()", "  match W0()", f"or when {spec}", "  match W1()", "else", "  match W2()"],
+                            dict(op="when", kind=kind, form="orwhen", leaves=k)))
+    for sid, lines in EDGE_LOOP_EXITS:
+        out.append((sid, list(lines), dict(op="loop-exit", kind="-", form="stmt", leaves=0)))
+    return out
